@@ -227,7 +227,9 @@ func (r *Report) Finish(o finishOpts) int {
 		}
 		r.writeEvidence(o, evDir, len(viol), len(undec), nKnown)
 	}
-	if len(viol) > 0 {
+	if len(viol) > 0 || len(undec) > 0 {
+		// an undecided obligation means the property could not be established on this tree
+		// (anchor gone, code shape no longer recognised): reported as a violation, distinctly.
 		fmt.Printf("VIOLATION property=%s replay=%s\n", r.Property, replay)
 	}
 	if code == 0 {
